@@ -63,7 +63,7 @@ impl Wake for CommandWaker {
     fn wake(self: Arc<Self>) {
         self.wake_by_ref();
         #[cfg(crux_verif)]
-        crate::verif::point("cmd.wake.before_drop");
+        crate::verif::point_val("cmd.wake.before_drop", Arc::as_ptr(&self) as usize as u64);
     }
 
     fn wake_by_ref(self: &Arc<Self>) {
@@ -72,18 +72,18 @@ impl Wake for CommandWaker {
         // TODO: Does that mean we should bail, since waking ourselves is
         // now pointless?
         #[cfg(crux_verif)]
-        crate::verif::point("cmd.wake.enter");
+        crate::verif::point_val("cmd.wake.enter", Arc::as_ptr(self) as usize as u64);
         let _ = self.ready_queue.send(self.task_id);
         #[cfg(crux_verif)]
-        crate::verif::point("cmd.wake.sent");
+        crate::verif::point_val("cmd.wake.sent", Arc::as_ptr(self) as usize as u64);
         self.woken.store(true, Ordering::Release);
         #[cfg(crux_verif)]
-        crate::verif::point("cmd.wake.stored");
+        crate::verif::point_val("cmd.wake.stored", Arc::as_ptr(self) as usize as u64);
 
         // Note: calling `wake` before `register` is a no-op
         self.parent_waker.wake();
         #[cfg(crux_verif)]
-        crate::verif::point("cmd.wake.parent_woken");
+        crate::verif::point_val("cmd.wake.parent_woken", Arc::as_ptr(self) as usize as u64);
     }
 }
 
@@ -215,6 +215,8 @@ impl<Effect, Event> Command<Effect, Event> {
             woken: AtomicBool::new(false),
         });
 
+        #[cfg(crux_verif)]
+        crate::verif::point_val("cmd.run_task.gen", Arc::as_ptr(&arc_waker) as usize as u64);
         let waker = arc_waker.clone().into();
         let context = &mut Context::from_waker(&waker);
 
